@@ -103,8 +103,8 @@ type Ev struct {
 	N    int           `json:"n,omitempty"`    // caps: nonce; est/upd/close/wu: session index of the peer; open: remote nonce (conn id) or -1
 	Data hx.Hex        `json:"data,omitempty"` // upd/wu: body
 	Info string        `json:"info,omitempty"`
-	Err  bool          `json:"err,omitempty"` // wu-: WriteUpdate returned an error
-	G    int64         `json:"g,omitempty"`   // wu: writer goroutine tag
+	Err  bool          `json:"err,omitempty"`  // wu-: WriteUpdate returned an error
+	G    int64         `json:"g,omitempty"`    // wu: writer goroutine tag
 	Caps []wire.Cap    `json:"caps,omitempty"` // open+: capabilities handed to OnOpenMessage
 	ID   string        `json:"id,omitempty"`   // open+: router id handed to OnOpenMessage
 }
@@ -151,7 +151,7 @@ type retained struct {
 type peerState struct {
 	spec     PeerSpec
 	mu       sync.Mutex
-	sessions int // number of OnEstablished so far
+	sessions int   // number of OnEstablished so far
 	sessIDs  []int // world-wide session number of each
 	writers  []corebgp.UpdateMessageWriter
 	retained []retained
@@ -341,6 +341,22 @@ func (w *World) Go(name, peer string, f func()) chan struct{} {
 func (w *World) Inbound(src, dst string) *memnet.Conn {
 	sp := netip.AddrPortFrom(netip.MustParseAddr(src), uint16(30000+w.Net.NextSeq()%20000))
 	dp := netip.AddrPortFrom(netip.MustParseAddr(dst), 179)
+	return w.Lis.Connect(sp, dp)
+}
+
+// InboundMapped is Inbound with both IPv4 addresses presented in their
+// IPv4-mapped IPv6 form (16-byte net.IP), as a dual-stack ([::]) listener's
+// accepted connections report them.
+func (w *World) InboundMapped(src, dst string) *memnet.Conn {
+	m := func(s string) netip.Addr {
+		a := netip.MustParseAddr(s)
+		if a.Is4() {
+			return netip.AddrFrom16(a.As16())
+		}
+		return a
+	}
+	sp := netip.AddrPortFrom(m(src), uint16(30000+w.Net.NextSeq()%20000))
+	dp := netip.AddrPortFrom(m(dst), 179)
 	return w.Lis.Connect(sp, dp)
 }
 
